@@ -23,6 +23,7 @@ func ruleC14(prog *Program, rep *Report) {
 	rulePrecAgree(prog, rep)
 	ruleHexFn(prog, rep)
 	ruleFirstByte(prog, rep)
+	ruleRecursionPassesNil(prog, rep, "jp")
 	ruleClassEndpoints(prog, rep, "jp") // digit, hex and letter tests of the path and script parser
 	ruleLoopExit(prog, rep, 100, "jp") // the printers and the parser loop over fragments and ints
 	ruleFloatBits(prog, rep, "jp")     // a float64 constant printed with 32 bits re-parses as another number
